@@ -75,7 +75,7 @@ def race(V, build, calls, tag, watched=None, preemptions=None):
     """build() -> namespace of a fresh system; calls = [f(ns) -> thunk result]; concurrent vs alone"""
     with V.notrace():
         systems = [build() for _ in range(len(calls) + 1)]
-    alone = [outcome(lambda c=c, ns=systems[i + 1]: c(ns)) for i, c in enumerate(calls)]
+        alone = [outcome(lambda c=c, ns=systems[i + 1]: c(ns)) for i, c in enumerate(calls)]
     ns = systems[0]
     thunks = [(lambda c=c: outcome(lambda: c(ns))) for c in calls]
     results, trace = sched.run_schedule(V, thunks, watched or WATCHED, preemptions or V.T(1, 2))
